@@ -24,6 +24,13 @@ DIMS = {
     "fmt": ["json", "yaml", "json5"],
     "layout": ["complete", "missing_file", "alt_ext", "both_ext"],
     "malformed": ["none", "type_locales", "type_default", "no_section", "syntax", "type_inherits", "dup_key"],
+    # the text around the section (it does not change the table the section denotes)
+    "eol": ["lf", "crlf", "mixed", "lone_cr"],
+    "head": ["none", "one", "two", "std", "many"],        # lines before the header: 0, 1, 2, 6+, 50+
+    "final_nl": ["yes", "no"],
+    "bom": ["no", "yes"],
+    "trail": ["none", "spaces", "tab", "comment"],        # what follows the header on its line
+    "indent": ["no", "yes"],
     "outcome": ["ok", "dup_locales", "dup_namespaces", "unknown_locale", "default_inherits", "missing_field", "not_found", "deser"],
 }
 
@@ -115,6 +122,9 @@ def tags(cfg, fmt, files):
          "surround": {(False, False): "none", (True, False): "before", (False, True): "after", (True, True): "both"}[
              (bool(cfg["before"]), bool(cfg["after"]))],
          "dir": dir_kind(cfg["locales_dir"])}
+    tx = cfg.get("text") or {}
+    o.update({"eol": tx.get("eol", "lf"), "head": tx.get("head", "std"), "final_nl": "yes" if tx.get("final_nl", True) else "no",
+              "bom": "yes" if tx.get("bom") else "no", "trail": tx.get("trail", "none"), "indent": "yes" if tx.get("indent") else "no"})
     o["dpos"] = None
     if have_l and d is not None:
         o["dpos"] = "unlisted" if d not in ls else ("first", "second")[ls.index(d)] if ls.index(d) < 2 else "later"
@@ -182,7 +192,7 @@ def tags(cfg, fmt, files):
     return [o]
 
 
-COMMON = {"outcome", "malformed", "surround", "unknown", "fmt", "req"}
+COMMON = {"outcome", "malformed", "surround", "unknown", "fmt", "req", "eol", "head", "final_nl", "bom", "trail", "indent"}
 VISIBLE = {
     "deser": COMMON,
     "missing_field": COMMON | {"inh_form", "pad"},
@@ -221,6 +231,10 @@ def compatible(d, v, o):
 
 
 def structural(d1, v1, d2, v2):
+    if d1 == "eol" and v1 == "lone_cr" and d2 == "head" and v2 == "none":
+        return "the lone carriage return sits in a line before the header"
+    if d1 == "surround" and v1 in ("before", "both") and d2 == "head" and v2 in ("none", "one", "two"):
+        return "other tables before the section come with the standard or long preamble"
     if d1 == "malformed" and d2 == "req" and ((v1 in ("type_default", "dup_key") and v2 == "missing_default") or
                                                (v1 == "type_locales" and v2 == "missing_locales")):
         return "the malformed field is the one that is left out"
@@ -439,7 +453,11 @@ def build(rng, sc):
            "before": before, "after": after,
            "unknown": [] if sc["unknown"] == "0" else rng.sample(['fallback = "en"', 'verbose = true', 'extra = { a = 1, default = "zz" }',
                                                                  'locales_dir = "nope"', 'Default = "zz"'], rng.choice([1, 2])),
-           "order": rng.random(), "inherits_as_table": sc["inh_form"] == "subtable"}
+           "order": rng.random(), "inherits_as_table": sc["inh_form"] == "subtable",
+           "text": {"eol": sc["eol"], "head": sc["head"], "final_nl": sc["final_nl"] == "yes", "bom": sc["bom"] == "yes",
+                    "trail": sc["trail"], "indent": sc["indent"] == "yes", "mention": "none"}}
+    if (sc["eol"] == "lone_cr" and sc["head"] == "none") or (before and sc["head"] in ("none", "one", "two")):
+        return None
     fmt = sc["fmt"]
     files = build_layout(rng, cfg, fmt, sc["layout"])
     if files is None:
